@@ -312,6 +312,8 @@ static void neigh_shard(long shard, void *arg) {
 static int C_DEPTHC;
 static void depth_emit(const unsigned char *s, size_t n, void *arg) { (void)arg; if (n > 2 && s[0] == 'x' && s[1] == '@') { check_class("depth", (const char *)s + 2, n - 2); MC_ADD(C_DEPTHC, 1); } }
 static void depth_shard(long shard, void *arg) { (void)arg; corpus_run(CP_DEPTH, shard, depth_emit, NULL); }
+static void embed_emit(const unsigned char *s, size_t n, void *arg) { (void)arg; if (n > 2 && s[0] == 'x' && s[1] == '@' && s[n - 1] != '.') { check_class("embed", (const char *)s + 2, n - 2); MC_ADD(C_DEPTHC, 1); } }
+static void embed_shard(long shard, void *arg) { (void)arg; corpus_run(CP_EMBED, shard, embed_emit, NULL); }
 
 static int do_replay(void) {
     mc_replay_t r; if (mc_load_replay(mc_replay, &r)) return 2;
@@ -353,6 +355,8 @@ int main(int argc, char **argv) {
     mc_parallel("reserved: 8 suffixes x preceding label length 0..63 x case patterns x 1-3 labels", 8 * 64, res_shard, NULL);
     mc_parallel("neighbours: one-edit neighbours of the 8 suffixes x 9 prefixes x 2 cases", 8, neigh_shard, NULL);
 #endif
+    if (corpus_load()) return 2;
+    mc_parallel("embed: every string compiled into the library objects as last label, second-level label, and every ordered pair as the last two labels", corpus_shards(CP_EMBED), embed_shard, NULL);
     mc_parallel("depth: 24 suffixes behind every sequence of 0-4 labels over {a,test,example,com,xn--p1ai,invalid} and behind 5..126 one-letter labels", corpus_shards(CP_DEPTH), depth_shard, NULL);
     return mc_finish();
 }
